@@ -45,7 +45,7 @@ func inventoryFuncs(c *Ctx) []*ssa.Function {
 		}
 		// package-level helpers of the protocol packages with bool/error results (e.g. abortNth.Verify)
 	}
-	for _, rel := range []string{"internal/ot", "pkg/ecdsa", "internal/mta", "internal/elgamal", "pkg/protocol", "internal/round", "pkg/taproot"} {
+	for _, rel := range []string{"internal/ot", "pkg/ecdsa", "internal/mta", "internal/elgamal", "pkg/protocol", "internal/round", "pkg/taproot", "internal/bip32", "protocols/frost/keygen", "protocols/doerner/keygen", "pkg/paillier", "pkg/pedersen", "pkg/math/curve", "pkg/math/arith"} {
 		p := c.PkgRel(rel)
 		if p == nil {
 			continue
